@@ -202,3 +202,54 @@ def raises_in(stmts: List[ast.stmt], cls_name: str) -> List[ast.Raise]:
             if isinstance(n, ast.Raise) and n.exc is not None and cls_name in norm(n.exc):
                 out.append(n)
     return out
+
+
+def fresh_factories(ctx, cls) -> set:
+    """ids of functions that hand out a newly constructed instance of `cls` on every return
+    (`vm = VM(..); ...; return vm`): calling one is as good as calling the constructor."""
+    from .core import call_name
+
+    cache = getattr(ctx, "_fresh_factories", None)
+    if cache is None:
+        cache = ctx._fresh_factories = {}
+    if id(cls) in cache:
+        return cache[id(cls)]
+    out = set()
+    for g in ctx.tree.funcs:
+        if isinstance(g.node, ast.Lambda):
+            continue
+        rets = [n for n in g.own_nodes() if isinstance(n, ast.Return)]
+        if not rets:
+            continue
+        ok = True
+        for r in rets:
+            v = r.value
+            if isinstance(v, ast.Call) and ctx.cg._class_visible(call_name(v) or "", g) is cls:
+                continue
+            if isinstance(v, ast.Name):
+                defs = [n.value for n in g.own_nodes() if isinstance(n, ast.Assign) and any(isinstance(t, ast.Name) and t.id == v.id for t in n.targets)]
+                if defs and all(isinstance(d, ast.Call) and ctx.cg._class_visible(call_name(d) or "", g) is cls for d in defs) and v.id not in g.params():
+                    continue
+            ok = False
+            break
+        if ok:
+            out.add(id(g))
+    cache[id(cls)] = out
+    return out
+
+
+def is_fresh_instance(ctx, e: ast.AST, f: Func, cls) -> bool:
+    """e evaluates to an instance of `cls` constructed in f (directly, through a local, or through a factory):
+    nothing else can hold a reference to it, and its per-instance state is the initial one."""
+    from .core import call_name
+
+    if isinstance(e, ast.Call):
+        if ctx.cg._class_visible(call_name(e) or "", f) is cls:
+            return True
+        cs = ctx.cg.site_of_call.get(id(e))
+        fac = fresh_factories(ctx, cls)
+        return bool(cs and cs.targets and all(id(t) in fac for t in cs.targets))
+    if isinstance(e, ast.Name) and e.id not in f.params():
+        defs = [n.value for n in f.own_nodes() if isinstance(n, ast.Assign) and any(isinstance(t, ast.Name) and t.id == e.id for t in n.targets)]
+        return bool(defs) and all(is_fresh_instance(ctx, d, f, cls) for d in defs)
+    return False
